@@ -275,6 +275,32 @@ func vfC05Run(t *testing.T, res *vfResult, c vfC05Case) {
 			muts = append(muts, vfMutant{Data: h, Class: "splice-parallel-session"})
 		}
 	}
+	// Records that claim a protected epoch but carry plain content (never sealed by anybody): every epoch from 1 up
+	// to the receiver's current read epoch and one beyond, every content type that has an effect when obeyed.
+	{
+		cur := int(vfCommon(receiver.Conn).RemoteEpoch())
+		localCID := vfCommon(receiver.Conn).LocalConnectionIDForInboundRecords()
+		bodies := map[uint8][]byte{
+			21: {2, 40},                              // fatal handshake_failure
+			23: []byte("PLAINTEXT-CLAIMING-AN-EPOCH"), // application data
+			22: vfHSFragment(1, 40, 9, 0, 40, make([]byte, 40)),
+			26: {0, 0},
+		}
+		seq := uint64(5000)
+		for e := 1; e <= cur+1 && e <= 8; e++ {
+			for _, ct := range []uint8{21, 23, 22, 26} {
+				seq++
+				muts = append(muts, vfMutant{Data: vfLegacyRecord(ct, 0xfefd, uint16(e), seq, nil, -1, bodies[ct]),
+					Class: fmt.Sprintf("plaintext-claiming-epoch:type%d:%s", ct, map[bool]string{true: "current-or-later", false: "earlier"}[e >= cur])})
+				if len(localCID) > 0 {
+					seq++
+					inner := append(append([]byte{}, bodies[ct]...), ct)
+					muts = append(muts, vfMutant{Data: vfLegacyRecord(25, 0xfefd, uint16(e), seq, localCID, -1, inner),
+						Class: fmt.Sprintf("plaintext-claiming-epoch:cid-framed-type%d:%s", ct, map[bool]string{true: "current-or-later", false: "earlier"}[e >= cur])})
+				}
+			}
+		}
+	}
 	layout := "nocid"
 	if cidLen > 0 {
 		layout = "cid"
